@@ -165,6 +165,8 @@ pub fn dynamic_problem<D: Store + Mk>(mut a: Accepted<D>, max_steps: u64, acc: &
     a.m.host = Host::declining();
     a.m.max_instr = usize::MAX;
     a.m.max_data = a.d0 + 60_000;
+    // a restart that doubles a concatenation makes later look-ups exponential: bounded number of cell reads per run
+    a.m.max_reads = a.m.reads.get() + 1_000_000;
     let unit = a.m.add_unit().ok()?;
     start(&mut a.m, *a.build.jump_index(), unit).ok()?;
     let (r0, v0, f0) = (a.m.depth(), a.m.vals.len(), a.m.frames.len());
